@@ -653,6 +653,20 @@ impl IdmServerProxyWriteTransaction<'_> {
             return Ok(());
         }
 
+        // A sync agreement must never supply ids from the reserved system uuid range. Stubs are
+        // created with an internal identity, which the base plugin allows into that range (and
+        // tags as builtin), so the range has to be refused here.
+        if let Some(reserved) = change_entries
+            .keys()
+            .find(|u| **u < DYNAMIC_RANGE_MINIMUM_UUID)
+        {
+            error!(
+                "Unable to proceed: entry uuid {} is within the reserved system uuid range.",
+                reserved
+            );
+            return Err(OperationError::InvalidEntryState);
+        }
+
         // First, search for all uuids present in the change set.
         // Note - we don't check the delete_uuids set here, that's done later. We use that
         // differently as we are somewhat more forgiving about reqs to delete uuids that are
